@@ -87,8 +87,17 @@ func cmdCheck(args []string) int {
 		fmt.Fprintln(os.Stderr, "load:", err)
 		return 2
 	}
+	resolveClosureAliases(l, cs)
 	var keys []string
+	seenFC := map[*FuncContract]bool{}
 	for k, fc := range cs.Funcs {
+		if seenFC[fc] {
+			continue // the same contract registered under a closure alias and its current name
+		}
+		if _, isAlias := l.funcs[k]; !isAlias && strings.Contains(k, "$[") {
+			// alias that matches no closure: keep it so that it is reported as unresolved
+		}
+		seenFC[fc] = true
 		if fc.Trusted || fc.Inline || !contains(fc.Props, *prop) {
 			continue
 		}
